@@ -13,7 +13,7 @@ from concurrent.futures import ThreadPoolExecutor
 
 import edges
 import replay as rp
-from vlib import HARNESS, NCPU, Inconclusive, go_build, workdir
+from vlib import HARNESS, NCPU, Inconclusive, go_build, workdir, probe_known
 
 CFG = """SPECIFICATION Spec
 CONSTANTS
@@ -138,6 +138,9 @@ def run(chk, tier):
     chk.setcov("exhaustive", True)
     if unreplayed and not chk.violations:
         raise Inconclusive("edges not replayed: " + "; ".join(unreplayed))
+    _jsrun = os.path.join(wd, "jsrun")
+    go_build("jsrun", _jsrun)
+    probe_known(chk, _jsrun, wd)      # the recorded lone-surrogate finding is probed on its specific inputs
     chk.setcov("rule", "every transition TLC generates for the plans of JsonSpec.tla is replayed on the real engine along tours from the "
                "initial state. Parse plans: texts grown from lexeme and phrase pieces (every structural token string, every lexeme "
                "representative incl. numerals beyond double range and malformed forms, duplicate / __proto__ / index keys, nesting "
